@@ -48,8 +48,9 @@ type c18Case struct {
 
 func init() {
 	mc.Register(&mc.Property{
-		ID:    "C18",
-		Level: "model_checking",
+		ID:     "C18",
+		Word32: true,
+		Level:  "model_checking",
 		Rule: "E2+E3: for every section (base in {0,5,2^40}, n in 0..4, thorough 0..7) a breadth-first search over the cursor states reachable inside the window [0, n+6] (observed through Seek(0, SeekCurrent)); from EVERY state EVERY operation of the alphabet {Write(len 0..6), WriteAt(len 0..6, off in [-1,n+1]), Seek(offset in [-7,n+2], whence in {-1,0,1,2,3})} × EVERY answer of the scripted underlying WriterAt {everything; k<len bytes with an error; k<len bytes without an error, k in {0,1,2}} is executed on a real SectionWriter positioned there by real calls. " +
 			"Independently every operation sequence of depth ≤3 (thorough ≤4) over a reduced alphabet runs on one object without any state merging (guards against hidden state) - alone and once more with a second SectionWriter over another underlying writer used between the steps (objects must not share state), once more WITHOUT reading the cursor back between the steps (observing it must not be what keeps the writer correct), once more over a SectionWriter stacked on the scripted writer and (fault-free sequences of ≤2 operations) over an *os.File whose content is read back -, and AtToWriter(w, off in {0,5}) runs every sequence of ≤3 Writes × answers. Big geometry: sections of length n in {0, 4, 2^31-1, 2^31, 2^31+1, 2^32, 2^32+3, 2^62} × base in {0,5,2^40} from every cursor in {0, 2^31-2, 2^32-2, n-3..n+2}: every Write(len 0..4) / WriteAt(len 0..4, off around n and around 2^31, 2^32) × answer, every Seek(off in [-3,3] ∪ {±n, n±1, 2^31, 2^32, 2^32+1} ∪ {the last positions of int64: MaxInt64-d relative to start / end / cursor, d in {0,1,4,5,6}}), each alone and followed blind by a Write or a relative Seek (a Seek whose target is a valid int64 relative to the section but whose absolute offset base+pos is not representable may be accepted or rejected - the statement leaves it open - and everything after it must follow the answer given). Long buffers: n in {2^16-1, 2^16, 2^16+1} × Write / WriteAt of 2^16-1, 2^16, 2^16+1, 2^17 bytes from cursors {0, 1, n-2^16, n-1, n} × answers {everything; k in {0, 1, 2^16-1, len-1} with / without an error} followed by a 1-byte Write. Oracle: the statement's cursor model — compared are return values (count, error class: nil / ErrShortWrite / the underlying error / some error for rejected Seeks), the exact list of non-empty (offset, bytes) calls the underlying writer received, containment in [base, base+n), the cursor afterwards and Size(). Non-trivial: transitions in which bytes reach the underlying writer or the cursor moves.",
 		Assumptions: []string{
